@@ -132,7 +132,7 @@ pub fn c05_receive_any_1() {
 }
 
 //@ harness: c05_receive_any_2
-//@ property: C05, C02
+//@ property: C05, C02, C20
 //@ tier: quick
 //@ unwind: 50
 //@ timeout: 1200
